@@ -41,6 +41,12 @@ def run(ck):
              "n": rng.uniform(0.8, 2.5 if rend == "pixel" else 6), "ellip": rng.uniform(0.3, 0.8) if i % 2 == 0 else rng.uniform(0, 0.8), "theta": rng.uniform(0, 6.28)}
         psf = "delta" if (rend == "pixel" and i % 2) else rng.choice(["gauss", "moffat"])
         cases.append({"renderer": rend, "N": N, "params": p, "psf": psf, "fwhm": rng.uniform(2.5, 4.0), "half_light": (i % 3 == 2 or i == 0)})
+    for i in range(1 if quick else 8):
+        # a hybrid renderer with most of the light in real-space components: elongated, generic angle
+        N = rng.choice([48, 64])
+        p = {"xc": N / 2 + rng.uniform(-2.5, 2.5), "yc": N / 2 + rng.uniform(-2.5, 2.5), "flux": 100.0, "r_eff": rng.uniform(2.0, N / 12),
+             "n": rng.uniform(1.0, 5), "ellip": rng.uniform(0.5, 0.8), "theta": rng.choice([0.5, 1.1, 2.0, 2.6]) + rng.uniform(-0.2, 0.2)}
+        cases.append({"renderer": "hybrid8", "N": N, "params": p, "psf": "gauss", "fwhm": rng.uniform(2.5, 4.0), "half_light": False})
     ck.log("implementation: %d renderings vs the reference renderer" % len(cases))
     import concurrent.futures as cf
     nsh = min(6, vlib.NCPU)
